@@ -36,9 +36,20 @@ static bool lin_search(const cm::Model &M0,const std::vector<Event> &H,std::vect
 
 static std::string prog_str(const std::vector<std::vector<int> > &progs,const std::vector<Op> &A){ std::string s; for(size_t t=0;t<progs.size();t++){ s+="T"+std::to_string(t)+"["; for(size_t i=0;i<progs[t].size();i++) s+=(i?"; ":"")+A[progs[t][i]].str(); s+="] "; } return s; }
 #ifndef C09_TSAN_PASS
+// ---- finer scheduling points -------------------------------------------------------------------------------------------
+// src/cache_storage.cpp (with private/hash_map.h) is compiled INTO this harness with -finstrument-functions, so every function
+// entry of the cache code calls the hook below. g_fine=1: entering any std::atomic / __atomic_base member is a scheduling
+// point (atomics are synchronisation operations). g_fine=2: additionally every function entry while the thread holds the
+// shared (reader) side of the cache lock - the region where other threads can run inside the cache at the same time.
+#include <unordered_map>
+static int g_fine=1; static thread_local bool tl_in_op=false,tl_in_hook=false; static uint64_t n_fine_atomic=0,n_fine_reader=0;
+extern "C" { void __cyg_profile_func_enter(void*,void*) __attribute__((no_instrument_function)); void __cyg_profile_func_exit(void*,void*) __attribute__((no_instrument_function)); }
+static bool is_atomic_fn(void *fn){ static std::unordered_map<void*,bool> cache; std::unordered_map<void*,bool>::iterator i=cache.find(fn); if(i!=cache.end()) return i->second; Dl_info di; bool at=false; if(dladdr(fn,&di)&&di.dli_sname){ const char *n=di.dli_sname; at= strstr(n,"St6atomic")||strstr(n,"__atomic_base")||strstr(n,"atomic_flag")||strstr(n,"atomic_counter"); } cache[fn]=at; return at; }
+extern "C" void __cyg_profile_func_enter(void *fn,void*){ if(!g_fine||!tl_in_op||tl_in_hook||sched::tl_in_sched||!sched::G.active||sched::tl_id<0) return; tl_in_hook=true; if(is_atomic_fn(fn)){ n_fine_atomic++; sched::fine_point(); } else if(g_fine>=2&&sched::holds_shared(sched::tl_id)){ n_fine_reader++; sched::fine_point(); } tl_in_hook=false; }
+extern "C" void __cyg_profile_func_exit(void*,void*){}
 static uint64_t n_exec=0,n_overlap_hist=0;
 static void check_program(const Init &in,const std::vector<std::vector<int> > &progs,int bound,const std::vector<Op> &A){ std::string cs="init="+in.label+" "+prog_str(progs,A); vf::announce(cs); std::shared_ptr<Exec> cur; std::set<std::string> outcomes;
-	auto factory=[&]()->std::vector<std::function<void()> >{ cur.reset(new Exec()); cur->cache=cppcms::impl::thread_cache_factory(in.limit); for(size_t i=0;i<in.ops.size();i++){ int sid; do_op(*cur,in.ops[i],sid); } std::vector<std::function<void()> > b; std::shared_ptr<Exec> x=cur; for(size_t t=0;t<progs.size();t++){ std::vector<int> pr=progs[t]; b.push_back([x,pr,t,&A](){ for(size_t i=0;i<pr.size();i++){ Event e; e.thread=t; e.opidx=pr[i]; e.op=A[pr[i]]; e.inv=++x->clock; int sid=0; e.obs=do_op(*x,e.op,sid); e.store_id=sid; e.res=++x->clock; /* only one thread runs at a time */ x->hist.push_back(e); } }); } return b; };
+	auto factory=[&]()->std::vector<std::function<void()> >{ cur.reset(new Exec()); cur->cache=cppcms::impl::thread_cache_factory(in.limit); for(size_t i=0;i<in.ops.size();i++){ int sid; do_op(*cur,in.ops[i],sid); } std::vector<std::function<void()> > b; std::shared_ptr<Exec> x=cur; for(size_t t=0;t<progs.size();t++){ std::vector<int> pr=progs[t]; b.push_back([x,pr,t,&A](){ for(size_t i=0;i<pr.size();i++){ Event e; e.thread=t; e.opidx=pr[i]; e.op=A[pr[i]]; e.inv=++x->clock; int sid=0; tl_in_op=true; e.obs=do_op(*x,e.op,sid); tl_in_op=false; e.store_id=sid; e.res=++x->clock; /* only one thread runs at a time */ x->hist.push_back(e); } }); } return b; };
 	auto after=[&](const sched::Result &r){ n_exec++; vf::eval(); vf::C().traces++; vf::C().transitions+=r.points.size(); if(r.deadlock){ vf::violation("deadlock:"+in.label,"a schedule deadlocks: not every operation completes ["+cs+" schedule="+r.choices+"]","\"case\":"+vf::jstr(cs)+",\"schedule\":"+vf::jstr(r.choices)); return; }
 		Exec &x=*cur; // audit (single-threaded, after all threads finished)
 		std::vector<Event> audit; { Op st; st.k=Op::STATS; Event e; e.op=st; int sid; e.obs=do_op(x,st,sid); audit.push_back(e); std::string ks[]={KA,KB}; for(int k=0;k<2;k++){ Op f; f.k=Op::FETCH; f.key=ks[k]; Event e2; e2.op=f; e2.obs=do_op(x,f,sid); audit.push_back(e2); } }
@@ -54,6 +65,9 @@ static void shard(int sh,int n){ bool th=vf::thorough(); std::vector<Op> A=alpha
 	for(size_t ii=0;ii<I.size();ii++) for(int a=0;a<NA;a++) for(int b=a;b<NA;b++) for(int c=b;c<NA;c++){ if((idx++%n)!=(uint64_t)sh) continue; if(!th&&ii%2==1&&(a+b+c)%2) continue; std::vector<std::vector<int> > p(3); p[0].push_back(a); p[1].push_back(b); p[2].push_back(c); check_program(I[ii],p,th?3:2,A); vf::guard("triples"); }
 	// 2 threads x 2 ops from a 6-operation subset: <= 2 preemptions (thorough 3)
 	{ int sub[]={0,2,3,5,6,7}; for(size_t ii=0;ii<I.size();ii++) for(int a=0;a<6;a++) for(int b=0;b<6;b++) for(int c=0;c<6;c++) for(int d=0;d<6;d++){ if((idx++%n)!=(uint64_t)sh) continue; if(!th&&(a+b+c+d+ii)%3) continue; std::vector<std::vector<int> > p(2); p[0].push_back(sub[a]); p[0].push_back(sub[b]); p[1].push_back(sub[c]); p[1].push_back(sub[d]); check_program(I[ii],p,th?3:2,A); vf::guard("two_by_two"); } }
+	// fine-grained pass: two threads, one operation each, scheduling points ALSO at every function entry of the cache code inside a reader section: <= 1 preemption (thorough 2 when both are fetches)
+	g_fine=2; for(size_t ii=0;ii<I.size();ii++) for(int a=0;a<NA;a++) for(int b=0;b<NA;b++){ if((idx++%n)!=(uint64_t)sh) continue; bool ff= A[a].k==Op::FETCH&&A[b].k==Op::FETCH; if(!ff&&a>b) continue; std::vector<std::vector<int> > p(2); p[0].push_back(a); p[1].push_back(b); check_program(I[ii],p,(th&&ff)?2:1,A); vf::guard("fine_grained_pairs"); } g_fine=1;
+	vf::guard("scheduling_points_inside_reader_sections",n_fine_reader); vf::guard("scheduling_points_at_atomic_operations",n_fine_atomic);
 	vf::guard("executions",n_exec); vf::guard("histories_with_overlapping_operations",n_overlap_hist); vf::guard("schedules_with_two_readers_inside",sched::G.readers_overlap); vf::guard("schedules_with_writer_waiting_for_reader",sched::G.writer_waited); }
 #else
 // ---- free-running ThreadSanitizer pass of the same programs (no scheduler; happens-before analysis) ----------------
@@ -66,15 +80,15 @@ int main(int argc,char **argv){ vf::init(argc,argv,"C09","model_checking");
 	tsan_pass(); return vf::finish();
 #else
 	int n=16; bool th=vf::thorough();
-	vf::C().rule="keys a=NUL and b=NUL NUL have equal hash values (same bucket at every table size) and a is a proper prefix of b; thread programs over {fetch(a), fetch(b), store(a,{t}), store(a,{}), store(b,{t}), rise(t), remove(a), clear, stats}: all 81 pairs of single operations under ALL schedules, triples of single operations and 2x2 programs over a 6-operation subset under every schedule with <= "+std::string(th?"3":"2")+" preemptions, x initial states {empty, {a}, {a,b} at limit 2, {a} at limit 1}; scheduling points = every pthread rwlock / mutex operation of the cache. Oracle: brute-force linearizability of the recorded history w.r.t. the set-valued cache model + final audit; deadlock detection. states = distinct observed outcome vectors, transitions = scheduling decisions, traces = executions of the real code. Data races: separate free-running ThreadSanitizer pass";
-	vf::assume("atomicity and ordering are decided at lock granularity (scheduling points at the pthread operations the cache performs); weak-memory effects below the pthread primitives are not modelled"); vf::assume("the data-race clause is decided by ThreadSanitizer on free-running executions of the same programs (happens-before analysis of the schedules that occurred, not enumeration)");
+	vf::C().rule="keys a=NUL and b=NUL NUL have equal hash values (same bucket at every table size) and a is a proper prefix of b; thread programs over {fetch(a), fetch(b), store(a,{t}), store(a,{}), store(b,{t}), rise(t), remove(a), clear, stats}: all 81 pairs of single operations under ALL schedules, triples of single operations and 2x2 programs over a 6-operation subset under every schedule with <= "+std::string(th?"3":"2")+" preemptions, x initial states {empty, {a}, {a,b} at limit 2, {a} at limit 1}; scheduling points = every pthread rwlock / mutex operation of the cache and every std::atomic member call of the cache code (src/cache_storage.cpp is compiled into the harness with -finstrument-functions); fine-grained pass: all pairs again with a scheduling point at EVERY function entry of the cache code while the thread is inside a reader section, <= 1 preemption (thorough 2 for fetch||fetch). Oracle: brute-force linearizability of the recorded history w.r.t. the set-valued cache model + final audit; deadlock detection. states = distinct observed outcome vectors, transitions = scheduling decisions, traces = executions of the real code. Data races: separate free-running ThreadSanitizer pass";
+	vf::assume("atomicity and ordering are decided at lock granularity, plus std::atomic member calls, plus (fine-grained pass) function-entry granularity inside reader sections; weak-memory effects and compiler builtins (__atomic_*/__sync_*) used without a function call are not scheduling points"); vf::assume("the data-race clause is decided by ThreadSanitizer on free-running executions of the same programs (happens-before analysis of the schedules that occurred, not enumeration)");
 	if(!vf::C().replay_file.empty()) printf("replay: the replay file names the program and the schedule (choice vector); re-running the quick tier reproduces it\n");
 	vf::parallel(n,n,[&](int sh){ shard(sh,n); },th?1700:280);
 	// race pass: the tsan-flavour binary of this harness, exit code 66 = ThreadSanitizer reported a race
 	{ std::string cmd=std::string("timeout -k 5 ")+(vf::thorough()?"1500 ":"400 ")+vf::verif_dir()+"/build/bin/C09.tsan --tier "+vf::C().tier+" --pass tsan --result '"+vf::scratch_dir()+"/tsan.res' 2>'"+vf::scratch_dir()+"/tsan.err'"; int st=system(cmd.c_str()); FILE *f=fopen((vf::scratch_dir()+"/tsan.res").c_str(),"rb"); bool merged=f&&vf::merge_ctx(f); if(f) fclose(f); std::string err; { std::ifstream e(vf::scratch_dir()+"/tsan.err"); std::stringstream ss; ss<<e.rdbuf(); err=ss.str(); }
 	  if(WIFEXITED(st)&&(WEXITSTATUS(st)==124||WEXITSTATUS(st)==137)){ vf::violation("free-running-pass-hang","the free-running ThreadSanitizer pass did not terminate within its time limit (livelock, deadlock or a corrupted structure): "+err.substr(0,300),"\"report\":"+vf::jstr(err.substr(0,1500))); }
 	  else if(err.find("ThreadSanitizer: data race")!=std::string::npos||(WIFEXITED(st)&&WEXITSTATUS(st)==66)){ size_t p=err.find("WARNING: ThreadSanitizer"); std::string rep= p==std::string::npos?err.substr(0,1500):err.substr(p,1500); std::string fn; size_t q=rep.find("#0 "); if(q!=std::string::npos){ size_t e2=rep.find('\n',q); fn=rep.substr(q,e2-q); } vf::violation("data-race","ThreadSanitizer reports a data race in the free-running pass: "+fn,"\"report\":"+vf::jstr(rep)); } else if(!merged||st!=0){ fprintf(stderr,"harness error: tsan pass failed (status %d): %s\n",st,err.substr(0,500).c_str()); vf::C().harness_error=true; } }
-	vf::require_guard("pairs_all_schedules"); vf::require_guard("triples"); vf::require_guard("two_by_two"); vf::require_guard("histories_with_overlapping_operations"); vf::require_guard("schedules_with_two_readers_inside"); vf::require_guard("schedules_with_writer_waiting_for_reader"); vf::require_guard("tsan_free_runs"); vf::require_guard("programs_with_several_outcomes");
+	vf::require_guard("pairs_all_schedules"); vf::require_guard("fine_grained_pairs"); vf::require_guard("scheduling_points_inside_reader_sections"); vf::require_guard("triples"); vf::require_guard("two_by_two"); vf::require_guard("histories_with_overlapping_operations"); vf::require_guard("schedules_with_two_readers_inside"); vf::require_guard("schedules_with_writer_waiting_for_reader"); vf::require_guard("tsan_free_runs"); vf::require_guard("programs_with_several_outcomes");
 	return vf::finish();
 #endif
 }
